@@ -40,6 +40,8 @@ CLASSES = {"MathExpression", "UnaryExpression", "NegateExpression", "FactorialEx
 FUNCTIONS = [
     ("tokenizer.py", "Tokenizer", "is_alpha", "Tokenizer_is_alpha", [("c", "char")], "bool"),
     ("tokenizer.py", "Tokenizer", "is_number", "Tokenizer_is_number", [("c", "char")], "bool"),
+    ("tree.py", "BinaryTreeNode", "get_root", "BinaryTreeNode_get_root", [("self", "node")], "node"),
+    ("tree.py", "BinaryTreeNode", "get_sibling", "BinaryTreeNode_get_sibling", [("self", "node")], "node"),
     ("util.py", None, "get_term_ex", "get_term_ex", [("node", "node")], "term"),
     ("expressions.py", "BinaryExpression", "get_priority", "BinaryExpression_get_priority", [("self", "node")], "int"),
     ("expressions.py", "BinaryExpression", "self_parens", "BinaryExpression_self_parens", [("self", "node")], "bool"),
@@ -237,6 +239,9 @@ class FnTranslator:
             if isinstance(op, ast.Eq):
                 return f"(numEq {lc} {rc})", "bool"
             raise Untranslatable("numeric comparison")
+        if lt == rt == "node" and isinstance(op, (ast.Eq, ast.NotEq)):
+            # BinaryTreeNode defines no __eq__: `==` on nodes is identity = same position
+            return (f"({lc} == {rc})" if isinstance(op, ast.Eq) else f"({lc} != {rc})"), "bool"
         if lt == rt == "optchar" and isinstance(op, (ast.Eq, ast.NotEq)):
             return (f"({lc} == {rc})" if isinstance(op, ast.Eq) else f"({lc} != {rc})"), "bool"
         if lt == rt and lt in ("str", "int", "bool"):
@@ -357,6 +362,11 @@ class FnTranslator:
                 return "none"
             if ty == "tuple:str,node,node":
                 return f"(some {c})"
+        if r == "node":
+            if ty == "none":
+                return "none"
+            if ty == "node":
+                return c
         if r == "term":
             if ty == "none":
                 return "none"
@@ -501,7 +511,7 @@ class FnTranslator:
 
 
 RET_LEAN = {"bool": "Bool", "int": "Int", "optstr": "Option String", "opt3": "Option (String × Ref × Ref)",
-            "opt3t": "Option (String × Option TermEx × Option TermEx)", "term": "Option TermEx"}
+            "opt3t": "Option (String × Option TermEx × Option TermEx)", "term": "Option TermEx", "node": "Ref"}
 TY_LEAN = {"node": "Ref", "bool": "Bool", "char": "Char"}
 
 
@@ -535,8 +545,9 @@ def find_function(tree, cls, fn):
     raise Untranslatable(f"function {fn} not found")
 
 
-AREAS = {"tokenizer.py": "Tok", "expressions.py": "Print", "util.py": "Util"}   # everything else: "Rules"
+AREAS = {"tokenizer.py": "Tok", "expressions.py": "Print", "util.py": "Util", "tree.py": "Tree"}   # everything else: "Rules"
 AREA_IMPORTS = {"Tok": ["Mathy.Model.PyRt"], "Print": ["Mathy.Model.PyRt"], "Util": ["Mathy.Model.PyRt"],
+                "Tree": ["Mathy.Model.PyRt"],
                 "Rules": ["Mathy.Model.PyRt", "Mathy.Gen.PySrcUtil"]}
 
 
@@ -545,7 +556,7 @@ def translate_areas(repo=None):
     any more only breaks the obligations of the properties about that area"""
     repo = repo or core.REPO
     texts, problems = {}, []
-    for area in ("Tok", "Print", "Util", "Rules"):
+    for area in ("Tok", "Print", "Util", "Tree", "Rules"):
         t, pr = translate_all(repo, area)
         texts[area] = t
         problems += pr
